@@ -4,6 +4,7 @@
 //                               (`-`: a single update with the whole message, like Sha256::digest)
 //   hmac <key> <data>           HmacSha256::compute
 //   verify <key> <data> <tag>   HmacSha256::verify -> true | false
+//   shagen <len> <seed> <chunk> digest of a generated <len>-byte message streamed in <chunk>-byte updates (see below)
 // <msg>/<key>/<data>/<tag>: lowercase hex, `-` for empty, or `<len>:<seed>` (LCG pattern, same expansion
 // as lean/Driver/C08.lean and props/C08.py); <splits>: `-` or ascending comma-separated offsets.
 // Every buffer handed to the code under test is an exact-size heap allocation, so ASan sees any read
@@ -82,6 +83,32 @@ int main(int argc, char** argv) {
             const Bytes data = parse_bytes(t[2]);
             const Bytes tag = parse_bytes(t[3]);
             return HmacSha256::verify(key.span(), data.span(), tag.span()) ? "true" : "false";
+        }
+        if (t[0] == "shagen" && t.size() == 4) {
+            // shagen <len> <seed> <chunk>: the message is the 1 MiB LCG block of <seed> repeated and cut to <len> bytes
+            // (byte at offset o = block[o mod 2^20]); it is streamed into one Sha256 object in update() calls of <chunk>
+            // bytes, so only min(chunk, len) bytes are ever allocated.  Used by the enlarged search of props/C08.py for
+            // lengths (>= 2^29 bytes) that neither the Lean driver nor a hex op can carry; the reference there is hashlib.
+            const std::size_t len = std::stoull(t[1]);
+            const std::size_t chunk = std::max<std::size_t>(1, std::stoull(t[3]));
+            const Bytes block = parse_bytes("1048576:" + t[2]);
+            const std::size_t cap = std::min(chunk, len);
+            std::unique_ptr<std::uint8_t[]> buf(new std::uint8_t[cap]);
+            Sha256 hasher;
+            std::size_t off = 0;
+            while (off < len) {
+                const std::size_t n = std::min(cap, len - off);
+                std::size_t done = 0;
+                while (done < n) {
+                    const std::size_t phase = (off + done) % block.n;
+                    const std::size_t m = std::min(n - done, block.n - phase);
+                    std::memcpy(buf.get() + done, block.p.get() + phase, m);
+                    done += m;
+                }
+                hasher.update(std::span<const std::uint8_t>(buf.get(), n));
+                off += n;
+            }
+            return verif::to_hex(hasher.finalize());
         }
         return "bad-op";
     };
